@@ -23,7 +23,7 @@ use crate::store::{fresh_dir, Conf, Store, SyncMode};
 pub fn check(id: &'static str) -> Check {
     let (rule, assumptions): (&'static str, Vec<&'static str>) = if id == "C03" {
         (
-            "one recorded episode = a generated single-threaded plan (15-60 ops: set/del/get with entries below and above the 8 KiB write buffer, merge passes, reopen cycles, small max_file_size so that rollovers and multi-file merge outputs occur) executed on the real store with every file-system call on the store directory logged. One evaluation = one kill point: for EVERY prefix of the logged directory-changing calls (create, write, unlink) the directory is rebuilt from the log, opened with the real code and every key read: each must equal the map model of the operations acknowledged before the kill, the single in-flight operation's key may read either way; then a continuation (set/overwrite/delete, close, reopen, read everything) must also agree. Exhaustive per recorded episode; episodes are sampled. Non-trivial/distinct = distinct (directory content hash, acknowledged prefix) states that were opened.",
+            "one recorded episode = a generated single-threaded plan (15-60 ops: set/del/get with entries below and above the 8 KiB write buffer, merge passes, reopen cycles, small max_file_size so that rollovers and multi-file merge outputs occur) executed on the real store with every file-system call on the store directory logged. One evaluation = one kill point: for EVERY prefix of the logged directory-changing calls (create, write, unlink) the directory is rebuilt from the log, opened with the real code and every key read: each must equal the map model of the operations acknowledged before the kill, the single in-flight operation's key may read either way; then a continuation (set/overwrite/three deletes, close, reopen, read everything, one merge pass, read everything, close, reopen, read everything) must also agree. Exhaustive per recorded episode; episodes are sampled. Non-trivial/distinct = distinct (directory content hash, acknowledged prefix) states that were opened.",
             vec![
                 "a kill is modelled at file-system call boundaries (a single write call is atomic), as the property states; in a quarter of the episodes the shim completes half of the writes of two or more bytes only partly (a legal short count), so that the boundary inside an entry exists as a kill point",
                 "the shim sees every call that changes the directory: checked after each recording by replaying the log into a model and comparing it byte for byte with the real directory (mismatch = inconclusive)",
@@ -126,6 +126,8 @@ pub fn check_crash_dir(dir: &Path, conf: &Conf, expect: &Expect, continuation: b
             if !keys.is_empty() {
                 step(&st, &mut model, &keys[0], Some(b"after-crash-2-overwrite"))?;
                 step(&st, &mut model, &keys[keys.len() / 2], None)?;
+                step(&st, &mut model, &keys[keys.len() / 4], None)?;
+                step(&st, &mut model, &keys[(3 * keys.len()) / 4], None)?;
             }
             let readback = |st: &Store, model: &HashMap<Vec<u8>, Vec<u8>>, when: &str| -> Result<(), Fail> {
                 let mut ks = keys.clone();
@@ -149,6 +151,19 @@ pub fn check_crash_dir(dir: &Path, conf: &Conf, expect: &Expect, continuation: b
                 Err(e) => return fail("open-failed-after-crash", format!("second open after the continuation failed: {}", e)),
             };
             readback(&st2, &model, "after continuation and another reopen")?;
+            // and it has to stay right through a compaction: what the interrupted run left behind
+            // (half-made merge outputs, copies that exist twice) must not come back once a later
+            // merge has removed the files that superseded it
+            if let Err(e) = st2.merge() {
+                return fail("merge-error-after-crash", format!("a merge on the recovered store returned {:?}", e));
+            }
+            readback(&st2, &model, "after continuation, reopen and a merge")?;
+            drop(st2);
+            let st3 = match Store::open(dir, &conf) {
+                Ok(s) => s,
+                Err(e) => return fail("open-failed-after-crash", format!("third open, after the continuation's merge, failed: {}", e)),
+            };
+            readback(&st3, &model, "after continuation, a merge and another reopen")?;
         }
         Ok(())
     }));
